@@ -222,14 +222,17 @@ package jet
 //@   ensures [other-kinds-always-exist] RvValid(v) && !(RvKind(v) == 18 || RvKind(v) == 19 || RvKind(v) == 20 || RvKind(v) == 21 || RvKind(v) == 22 || RvKind(v) == 23) ==> result == true
 //@ func toInt
 //@   props C10 C07 C12 C04
-//@   ensures [signed-integers-convert-to-themselves] {C04} RvValid(v) && KInt(RvKind(v)) ==> result == RvInt(v)
-//@   ensures [unsigned-integers-convert-to-themselves] {C04} RvValid(v) && 7 <= RvKind(v) && RvKind(v) <= 11 ==> result == RvUint(v)
+//@   ensures [signed-integers-convert-to-themselves] {C04} KInt(RvKind(v)) ==> result == RvInt(v)
+//@   ensures [unsigned-integers-convert-to-themselves] {C04} 7 <= RvKind(v) && RvKind(v) <= 11 ==> result == RvUint(v)
 //@ func toUint
 //@   props C10 C07 C12 C04
-//@   ensures [unsigned-integers-convert-to-themselves] {C04} RvValid(v) && 7 <= RvKind(v) && RvKind(v) <= 11 ==> result == RvUint(v)
+//@   ensures [unsigned-integers-convert-to-themselves] {C04} 7 <= RvKind(v) && RvKind(v) <= 11 ==> result == RvUint(v)
 //@   ensures [non-negative-signed-integers-convert-to-themselves] {C04} RvValid(v) && KInt(RvKind(v)) && RvInt(v) >= 0 ==> result == RvInt(v)
 //@ func toFloat
-//@   props C10 C07 C12
+//@   props C10 C07 C12 C04
+//@   ensures [floats-convert-to-themselves] {C04} KFloat(RvKind(v)) ==> result == RvFloat(v)
+//@   ensures [signed-integers-promote-to-float] {C04} KInt(RvKind(v)) ==> result == float64(RvInt(v))
+//@   ensures [unsigned-integers-promote-to-float] {C04} 7 <= RvKind(v) && RvKind(v) <= 11 ==> result == float64(RvUint(v))
 //@ func getTypeString
 //@   props C10 C07 C12
 //@ func isUint
@@ -246,6 +249,11 @@ package jet
 //@   ensures [kind-class] result == KFloat(kind)
 //@ func checkEquality
 //@   props C10 C07 C12 C04
+//@   ensures [two-go-integers-are-equal-iff-their-values-are] {C04} RvValid(v1) && RvValid(v2) && KInt(RvKind(v1)) && KInt(RvKind(v2)) ==> result == (RvInt(v1) == RvInt(v2))
+//@   ensures [a-float-operand-makes-equality-floating-point] {C04} RvValid(v1) && RvValid(v2) && KInt(RvKind(v1)) && KFloat(RvKind(v2)) ==> result == (float64(RvInt(v1)) == RvFloat(v2))
+//@   ensures [an-unsigned-integer-compares-with-a-float-as-floats] {C04} RvValid(v1) && RvValid(v2) && 7 <= RvKind(v1) && RvKind(v1) <= 11 && KFloat(RvKind(v2)) ==> result == (float64(RvUint(v1)) == RvFloat(v2))
+//@   ensures [a-float-left-operand-makes-equality-floating-point] {C04} RvValid(v1) && RvValid(v2) && KFloat(RvKind(v1)) && KInt(RvKind(v2)) ==> result == (RvFloat(v1) == float64(RvInt(v2)))
+//@   ensures [two-floats-are-equal-iff-their-values-are] {C04} RvValid(v1) && RvValid(v2) && KFloat(RvKind(v1)) && KFloat(RvKind(v2)) ==> result == (RvFloat(v1) == RvFloat(v2))
 //@   loop 0 invariant 0 <= i && vlen == RvLen(v1) && vlen == RvLen(v2)
 //@   loop 1 invariant 0 <= i && vlen == RvLen(v1) && vlen == RvLen(v2)
 //@   loop 2 invariant 0 <= i && n == RvNumField(v1)
@@ -255,15 +263,22 @@ package jet
 //@   ensures [truthy-is-valid-and-not-the-zero-value] {C05} result == (RvValid(v) && !RvIsZero(v))
 //@ func canNumber
 //@   props C10 C07 C12
+//@   nopanic
+//@   ensures [kind-class] result == (KInt(kind) || (7 <= kind && kind <= 11) || KFloat(kind))
 //@ func castInt64
 //@   props C10 C07 C12
+//@   ensures [signed-integers-cast-to-themselves] KInt(RvKind(v)) ==> result == RvInt(v)
+//@   ensures [unsigned-integers-cast-to-themselves] 7 <= RvKind(v) && RvKind(v) <= 11 ==> result == RvUint(v)
+//@   ensures [non-numbers-cast-to-zero] !KInt(RvKind(v)) && !(7 <= RvKind(v) && RvKind(v) <= 11) && !KFloat(RvKind(v)) ==> result == 0
 //@ func indirect
 //@   props C10 C07 C06 C12
 //@   loop 0 invariant true
 //@   ensures [indirection-goes-through-every-pointer-and-interface] {C06} !isNil ==> RvKind(rv) != 22 && RvKind(rv) != 20
 //@   ensures [a-nil-link-stops-the-indirection] {C06} isNil ==> (RvKind(rv) == 22 || RvKind(rv) == 20) && RvIsNil(rv)
 //@ func indirectInterface
-//@   props C10 C07 C06 C12
+//@   props C10 C07 C06 C12 C04
+//@   ensures [only-interfaces-are-unwrapped] RvKind(v) != 20 ==> result == v
+//@   ensures [interfaces-are-unwrapped-once] RvKind(v) == 20 ==> result == RvElem(v)
 //@ func indexArg
 //@   props C10 C07 C06 C12 C17
 //@   ensures [index-is-in-range-or-an-error] result1 == nil ==> 0 <= result0 && result0 < cap
@@ -313,6 +328,7 @@ package jet
 //@   requires RtOK(st) && node != nil && WF(iface(node, "*NumericComparativeExprNode"))
 //@   modifies @Interp
 //@   ensures [relational-operators-yield-a-bool] {C04} RvValid(result) && RvKind(result) == 1
+//@   check [a-float-operand-makes-the-comparison-floating-point] {C04} (KInt(RvKind(siteret("(*Runtime).evalPrimaryExpressionGroup", 0, 0))) || KFloat(RvKind(siteret("(*Runtime).evalPrimaryExpressionGroup", 0, 0)))) && (KInt(RvKind(siteret("(*Runtime).evalPrimaryExpressionGroup", 1, 0))) || KFloat(RvKind(siteret("(*Runtime).evalPrimaryExpressionGroup", 1, 0)))) && (KFloat(RvKind(siteret("(*Runtime).evalPrimaryExpressionGroup", 0, 0))) || KFloat(RvKind(siteret("(*Runtime).evalPrimaryExpressionGroup", 1, 0)))) ==> RvBool(result) == ite(node.binaryExprNode.Operator.typ == itemGreat, ite(KInt(RvKind(siteret("(*Runtime).evalPrimaryExpressionGroup", 0, 0))), float64(RvInt(siteret("(*Runtime).evalPrimaryExpressionGroup", 0, 0))), RvFloat(siteret("(*Runtime).evalPrimaryExpressionGroup", 0, 0))) > ite(KInt(RvKind(siteret("(*Runtime).evalPrimaryExpressionGroup", 1, 0))), float64(RvInt(siteret("(*Runtime).evalPrimaryExpressionGroup", 1, 0))), RvFloat(siteret("(*Runtime).evalPrimaryExpressionGroup", 1, 0))), ite(node.binaryExprNode.Operator.typ == itemGreatEquals, ite(KInt(RvKind(siteret("(*Runtime).evalPrimaryExpressionGroup", 0, 0))), float64(RvInt(siteret("(*Runtime).evalPrimaryExpressionGroup", 0, 0))), RvFloat(siteret("(*Runtime).evalPrimaryExpressionGroup", 0, 0))) >= ite(KInt(RvKind(siteret("(*Runtime).evalPrimaryExpressionGroup", 1, 0))), float64(RvInt(siteret("(*Runtime).evalPrimaryExpressionGroup", 1, 0))), RvFloat(siteret("(*Runtime).evalPrimaryExpressionGroup", 1, 0))), ite(node.binaryExprNode.Operator.typ == itemLess, ite(KInt(RvKind(siteret("(*Runtime).evalPrimaryExpressionGroup", 0, 0))), float64(RvInt(siteret("(*Runtime).evalPrimaryExpressionGroup", 0, 0))), RvFloat(siteret("(*Runtime).evalPrimaryExpressionGroup", 0, 0))) < ite(KInt(RvKind(siteret("(*Runtime).evalPrimaryExpressionGroup", 1, 0))), float64(RvInt(siteret("(*Runtime).evalPrimaryExpressionGroup", 1, 0))), RvFloat(siteret("(*Runtime).evalPrimaryExpressionGroup", 1, 0))), ite(node.binaryExprNode.Operator.typ == itemLessEquals, ite(KInt(RvKind(siteret("(*Runtime).evalPrimaryExpressionGroup", 0, 0))), float64(RvInt(siteret("(*Runtime).evalPrimaryExpressionGroup", 0, 0))), RvFloat(siteret("(*Runtime).evalPrimaryExpressionGroup", 0, 0))) <= ite(KInt(RvKind(siteret("(*Runtime).evalPrimaryExpressionGroup", 1, 0))), float64(RvInt(siteret("(*Runtime).evalPrimaryExpressionGroup", 1, 0))), RvFloat(siteret("(*Runtime).evalPrimaryExpressionGroup", 1, 0))), RvBool(result)))))
 //@   check [two-go-integers-compare-integrally] {C04} KInt(RvKind(siteret("(*Runtime).evalPrimaryExpressionGroup", 0, 0))) && KInt(RvKind(siteret("(*Runtime).evalPrimaryExpressionGroup", 1, 0))) ==> RvBool(result) == ite(node.binaryExprNode.Operator.typ == itemGreat, RvInt(siteret("(*Runtime).evalPrimaryExpressionGroup", 0, 0)) > RvInt(siteret("(*Runtime).evalPrimaryExpressionGroup", 1, 0)), ite(node.binaryExprNode.Operator.typ == itemGreatEquals, RvInt(siteret("(*Runtime).evalPrimaryExpressionGroup", 0, 0)) >= RvInt(siteret("(*Runtime).evalPrimaryExpressionGroup", 1, 0)), ite(node.binaryExprNode.Operator.typ == itemLess, RvInt(siteret("(*Runtime).evalPrimaryExpressionGroup", 0, 0)) < RvInt(siteret("(*Runtime).evalPrimaryExpressionGroup", 1, 0)), ite(node.binaryExprNode.Operator.typ == itemLessEquals, RvInt(siteret("(*Runtime).evalPrimaryExpressionGroup", 0, 0)) <= RvInt(siteret("(*Runtime).evalPrimaryExpressionGroup", 1, 0)), RvBool(result)))))
 //@   callsite (*Runtime).evalPrimaryExpressionGroup 0 requires [left-operand-first] {C04} node == caller.node.binaryExprNode.Left
 //@   callsite (*Runtime).evalPrimaryExpressionGroup 1 requires [right-operand-second] {C04} node == caller.node.binaryExprNode.Right
@@ -345,6 +361,8 @@ package jet
 //@   requires RtOK(st) && node != nil && WF(iface(node, "*MultiplicativeExprNode"))
 //@   modifies @Interp
 //@   check [a-float-operand-makes-the-operation-floating-point] {C04} KFloat(RvKind(lastret("(*Runtime).evalPrimaryExpressionGroup", 0))) && node.binaryExprNode.Operator.typ != itemMod ==> ncalls("toInt") == 0 && ncalls("toUint") == 0
+//@   check [a-float-operand-makes-the-product-floating-point] {C04} node.binaryExprNode.Operator.typ == itemMul && (KInt(RvKind(siteret("(*Runtime).evalPrimaryExpressionGroup", 0, 0))) || KFloat(RvKind(siteret("(*Runtime).evalPrimaryExpressionGroup", 0, 0)))) && (KInt(RvKind(siteret("(*Runtime).evalPrimaryExpressionGroup", 1, 0))) || KFloat(RvKind(siteret("(*Runtime).evalPrimaryExpressionGroup", 1, 0)))) && (KFloat(RvKind(siteret("(*Runtime).evalPrimaryExpressionGroup", 0, 0))) || KFloat(RvKind(siteret("(*Runtime).evalPrimaryExpressionGroup", 1, 0)))) ==> RvKind(result) == 14 && RvFloat(result) == ite(KInt(RvKind(siteret("(*Runtime).evalPrimaryExpressionGroup", 0, 0))), float64(RvInt(siteret("(*Runtime).evalPrimaryExpressionGroup", 0, 0))), RvFloat(siteret("(*Runtime).evalPrimaryExpressionGroup", 0, 0))) * ite(KInt(RvKind(siteret("(*Runtime).evalPrimaryExpressionGroup", 1, 0))), float64(RvInt(siteret("(*Runtime).evalPrimaryExpressionGroup", 1, 0))), RvFloat(siteret("(*Runtime).evalPrimaryExpressionGroup", 1, 0)))
+//@   check [a-float-operand-makes-the-quotient-floating-point] {C04} node.binaryExprNode.Operator.typ == itemDiv && (KInt(RvKind(siteret("(*Runtime).evalPrimaryExpressionGroup", 0, 0))) || KFloat(RvKind(siteret("(*Runtime).evalPrimaryExpressionGroup", 0, 0)))) && (KInt(RvKind(siteret("(*Runtime).evalPrimaryExpressionGroup", 1, 0))) || KFloat(RvKind(siteret("(*Runtime).evalPrimaryExpressionGroup", 1, 0)))) && (KFloat(RvKind(siteret("(*Runtime).evalPrimaryExpressionGroup", 0, 0))) || KFloat(RvKind(siteret("(*Runtime).evalPrimaryExpressionGroup", 1, 0)))) ==> RvKind(result) == 14 && RvFloat(result) == ite(KInt(RvKind(siteret("(*Runtime).evalPrimaryExpressionGroup", 0, 0))), float64(RvInt(siteret("(*Runtime).evalPrimaryExpressionGroup", 0, 0))), RvFloat(siteret("(*Runtime).evalPrimaryExpressionGroup", 0, 0))) / ite(KInt(RvKind(siteret("(*Runtime).evalPrimaryExpressionGroup", 1, 0))), float64(RvInt(siteret("(*Runtime).evalPrimaryExpressionGroup", 1, 0))), RvFloat(siteret("(*Runtime).evalPrimaryExpressionGroup", 1, 0)))
 //@   check [two-go-integers-multiply-integrally] {C04} node.binaryExprNode.Operator.typ == itemMul && KInt(RvKind(siteret("(*Runtime).evalPrimaryExpressionGroup", 0, 0))) && KInt(RvKind(siteret("(*Runtime).evalPrimaryExpressionGroup", 1, 0))) ==> RvKind(result) == 6 && RvInt(result) == RvInt(siteret("(*Runtime).evalPrimaryExpressionGroup", 0, 0)) * RvInt(siteret("(*Runtime).evalPrimaryExpressionGroup", 1, 0))
 //@   check [integer-division-and-modulo-stay-integral] {C04} (node.binaryExprNode.Operator.typ == itemDiv || node.binaryExprNode.Operator.typ == itemMod) && KInt(RvKind(siteret("(*Runtime).evalPrimaryExpressionGroup", 0, 0))) && KInt(RvKind(siteret("(*Runtime).evalPrimaryExpressionGroup", 1, 0))) ==> RvKind(result) == 6
 //@   check [integer-division-truncates] {C04} node.binaryExprNode.Operator.typ == itemDiv && KInt(RvKind(siteret("(*Runtime).evalPrimaryExpressionGroup", 0, 0))) && KInt(RvKind(siteret("(*Runtime).evalPrimaryExpressionGroup", 1, 0))) ==> RvInt(result) == RvInt(siteret("(*Runtime).evalPrimaryExpressionGroup", 0, 0)) / RvInt(siteret("(*Runtime).evalPrimaryExpressionGroup", 1, 0))
@@ -359,6 +377,8 @@ package jet
 //@   requires RtOK(st) && node != nil && WF(iface(node, "*AdditiveExprNode"))
 //@   modifies @Interp
 //@   check [a-float-operand-makes-the-operation-floating-point] {C04} KFloat(RvKind(lastret("(*Runtime).evalPrimaryExpressionGroup", 0))) ==> ncalls("toInt") == 0 && ncalls("toUint") == 0
+//@   check [integer-plus-float-is-a-float-sum] {C04} node.binaryExprNode.Left != nil && KInt(RvKind(siteret("(*Runtime).evalPrimaryExpressionGroup", 1, 0))) && KFloat(RvKind(siteret("(*Runtime).evalPrimaryExpressionGroup", 2, 0))) ==> RvKind(result) == 14 && RvFloat(result) == ite(node.binaryExprNode.Operator.typ == itemAdd, float64(RvInt(siteret("(*Runtime).evalPrimaryExpressionGroup", 1, 0))) + RvFloat(siteret("(*Runtime).evalPrimaryExpressionGroup", 2, 0)), float64(RvInt(siteret("(*Runtime).evalPrimaryExpressionGroup", 1, 0))) - RvFloat(siteret("(*Runtime).evalPrimaryExpressionGroup", 2, 0)))
+//@   check [float-plus-number-is-a-float-sum] {C04} node.binaryExprNode.Left != nil && KFloat(RvKind(siteret("(*Runtime).evalPrimaryExpressionGroup", 1, 0))) && (KInt(RvKind(siteret("(*Runtime).evalPrimaryExpressionGroup", 2, 0))) || KFloat(RvKind(siteret("(*Runtime).evalPrimaryExpressionGroup", 2, 0)))) ==> RvKind(result) == 14 && RvFloat(result) == ite(node.binaryExprNode.Operator.typ == itemAdd, RvFloat(siteret("(*Runtime).evalPrimaryExpressionGroup", 1, 0)) + ite(KInt(RvKind(siteret("(*Runtime).evalPrimaryExpressionGroup", 2, 0))), float64(RvInt(siteret("(*Runtime).evalPrimaryExpressionGroup", 2, 0))), RvFloat(siteret("(*Runtime).evalPrimaryExpressionGroup", 2, 0))), RvFloat(siteret("(*Runtime).evalPrimaryExpressionGroup", 1, 0)) - ite(KInt(RvKind(siteret("(*Runtime).evalPrimaryExpressionGroup", 2, 0))), float64(RvInt(siteret("(*Runtime).evalPrimaryExpressionGroup", 2, 0))), RvFloat(siteret("(*Runtime).evalPrimaryExpressionGroup", 2, 0))))
 //@   check [two-go-integers-add-and-subtract-integrally] {C04} node.binaryExprNode.Left != nil && KInt(RvKind(siteret("(*Runtime).evalPrimaryExpressionGroup", 1, 0))) && KInt(RvKind(siteret("(*Runtime).evalPrimaryExpressionGroup", 2, 0))) ==> RvKind(result) == 6 && RvInt(result) == ite(node.binaryExprNode.Operator.typ == itemAdd, RvInt(siteret("(*Runtime).evalPrimaryExpressionGroup", 1, 0)) + RvInt(siteret("(*Runtime).evalPrimaryExpressionGroup", 2, 0)), RvInt(siteret("(*Runtime).evalPrimaryExpressionGroup", 1, 0)) - RvInt(siteret("(*Runtime).evalPrimaryExpressionGroup", 2, 0)))
 //@   check [unary-minus-negates-an-integer] {C04} node.binaryExprNode.Left == nil && KInt(RvKind(siteret("(*Runtime).evalPrimaryExpressionGroup", 0, 0))) ==> RvKind(result) == 6 && RvInt(result) == ite(node.binaryExprNode.Operator.typ == itemAdd, RvInt(siteret("(*Runtime).evalPrimaryExpressionGroup", 0, 0)), 0 - RvInt(siteret("(*Runtime).evalPrimaryExpressionGroup", 0, 0)))
 //@   callsite (*Runtime).evalPrimaryExpressionGroup 0 requires [unary-sign-evaluates-its-operand] {C04} node == caller.node.binaryExprNode.Right
@@ -813,6 +833,7 @@ package jet
 //@ axiom forallT(t, "reflect.Type", forallT(k, "int", ParamT(t, k) == ite(TVariadic(t) && k >= TNumIn(t) - 1, TElem(TIn(t, TNumIn(t) - 1)), TIn(t, k))))
 //@ axiom forallT(v, "reflect.Value", forallT(t, "reflect.Type", RvTypeOf(RvConv(v, t)) == t && TAssign(t, t)))
 //@ axiom forallT(i, "interface{}", istype(i, "int64") ==> RvValid(RvOf(i)) && RvKind(RvOf(i)) == 6 && RvInt(RvOf(i)) == as(i, "int64"))
+//@ axiom forallT(i, "interface{}", istype(i, "float64") ==> RvValid(RvOf(i)) && RvKind(RvOf(i)) == 14 && RvFloat(RvOf(i)) == as(i, "float64"))
 //@ axiom forallT(i, "interface{}", istype(i, "bool") ==> RvValid(RvOf(i)) && RvKind(RvOf(i)) == 1 && RvBool(RvOf(i)) == as(i, "bool"))
 //@ immutable {C14,C12} global stringType
 // reflect.ValueOf(make(map[string]interface{})): a non-nil map keyed by string whose elements may be anything
